@@ -7,12 +7,17 @@ open PlasVerif.Driver PlasVerif.Model.Escape PlasVerif.Spec.HtmlText
 def flag? : String → Option Bool
   | "0" => some false | "1" => some true | _ => none
 
-/-- the fixed family of wrapping templates used by the `tree` stream (the harness installs the same ones) -/
-def tplPre : Nat → List Nat
-  | 0 => str "<span>" | 1 => str "<div class=\"c\">" | 2 => [] | 3 => str "<p>" | _ => str "<li><b>"
-def tplPost : Nat → List Nat
-  | 0 => str "</span>" | 1 => str "</div>" | 2 => [] | 3 => str "</p><hr/>" | _ => str "</b></li>"
-def templates : Templates := fun k x => tplPre k ++ x ++ tplPost k
+/-- the fixed family of templates used by the `tree` stream (the harness installs the same ones): piece
+    sequences; 5 and 6 have words of their own and show the content twice / never -/
+def tplPieces : Nat → List Piece
+  | 0 => [.lit (str "<span>"), .content, .lit (str "</span>")]
+  | 1 => [.lit (str "<div class=\"c\">"), .content, .lit (str "</div>")]
+  | 2 => [.content]
+  | 3 => [.lit (str "<p>"), .content, .lit (str "</p><hr/>")]
+  | 5 => [.lit (str "<b>T</b>: "), .content, .lit (str "<i>"), .content, .lit (str "</i>")]
+  | 6 => [.lit (str "<u>no content</u>")]
+  | _ => [.lit (str "<li><b>"), .content, .lit (str "</b></li>")]
+def templates : Templates := pieceTemplates tplPieces
 
 /- prefix encoding of render trees:  T m n c1..cn | U m n c1..cn | E tpl k child1..childk -/
 mutual
